@@ -209,7 +209,7 @@ def payload_via_init(prog, version_input, config_version=2.0, rpcid=None):
 
 def eval_payload(prog, method, rep, args, rpcid=None):
     fi = prog.func("jsonrpc", "Payload." + method)
-    ev = shape.Evaluator(prog, "jsonrpc")
+    ev = shape.Evaluator(prog, "jsonrpc", lenient=True)      # (undecided tests fork: every outcome is compared with the envelope table)
     if isinstance(rep, tuple):       # (version argument, config version): go through the constructor
         return fi, ev.run(fi, dict(args), payload_via_init(prog, rep[0], rep[1], rpcid))
     return fi, ev.run(fi, dict(args), payload_obj(rep, rpcid))
@@ -360,6 +360,41 @@ def _isfloat(s):
         return False
 
 
+def _getattr_table(prog, fi, g, node, e):
+    """names of a table `{name: getattr(self, name) for name in <constant tuple>}` bound once to the name `e`; None if not of that form"""
+    if not isinstance(e, ast.Name):
+        return None
+    binds = [st for st in ast.walk(fi.node) if isinstance(st, ast.Assign) and any(isinstance(t, ast.Name) and t.id == e.id for t in st.targets)]
+    if len(binds) != 1 or not isinstance(binds[0].value, ast.DictComp):
+        return None
+    dc = binds[0].value
+    if len(dc.generators) != 1 or dc.generators[0].ifs or not isinstance(dc.generators[0].target, ast.Name):
+        return None
+    v = dc.generators[0].target.id
+    if not (isinstance(dc.key, ast.Name) and dc.key.id == v and isinstance(dc.value, ast.Call) and dump(dc.value.func) == "getattr" and
+            len(dc.value.args) == 2 and dump(dc.value.args[0]) == "self" and dump(dc.value.args[1]) == v):
+        return None
+    it = dc.generators[0].iter
+    names = None
+    if isinstance(it, (ast.Tuple, ast.List)) and all(isinstance(x, ast.Constant) and isinstance(x.value, str) for x in it.elts):
+        names = [x.value for x in it.elts]
+    elif isinstance(it, ast.Attribute) and dump(it.value) == "self" and fi.cls is not None:
+        cb = [st for st in fi.cls.node.body if isinstance(st, ast.Assign) and any(isinstance(t, ast.Name) and t.id == it.attr for t in st.targets)]
+        if len(cb) == 1 and isinstance(cb[0].value, (ast.Tuple, ast.List)) and all(isinstance(x, ast.Constant) and isinstance(x.value, str) for x in cb[0].value.elts):
+            names = [x.value for x in cb[0].value.elts]
+    if names is None:
+        return None
+    # completed afterwards only by update(<**kwargs parameter>) - the caller's explicit overrides
+    kwp = fi.node.args.kwarg.arg if fi.node.args.kwarg is not None else None
+    for x in ast.walk(fi.node):
+        if isinstance(x, ast.Call) and isinstance(x.func, ast.Attribute) and dump(x.func.value) == e.id and x.func.attr not in ("get", "keys", "items", "values", "copy"):
+            if not (x.func.attr == "update" and len(x.args) == 1 and isinstance(x.args[0], ast.Name) and x.args[0].id == kwp):
+                return None
+        if isinstance(x, ast.Subscript) and isinstance(x.ctx, (ast.Store, ast.Del)) and dump(x.value) == e.id:
+            return None
+    return names
+
+
 def check_config_copy(ck, rule, only=None):
     """Sibling agreement Config.__init__ <-> Config.copy: every field is carried from the same source attribute,
     mutable containers are rebound to copies (shared by C13.2, C07.6, C20.6)."""
@@ -389,6 +424,15 @@ def check_config_copy(ck, rule, only=None):
         if i < len(init_params):
             carried[init_params[i]] = prov.origin(gc, cn, a)
     for k in cc.keywords:
+        if k.arg is None:
+            # Config(**members) with members = {name: getattr(self, name) for name in <constant tuple of names>} (later completed
+            # by caller-given overrides): each listed name is carried from the attribute of that name
+            got = _getattr_table(prog, fcopy, gc, cn, k.value)
+            if got is None:
+                raise AnalysisError("Config.copy hands `**%s` to the constructor: a table that cannot be resolved (not modelled)" % dump(k.value))
+            for nm_ in got:
+                carried.setdefault(nm_, ("attr", ("param", "self"), nm_))
+            continue
         carried[k.arg] = prov.origin(gc, cn, k.value)
     new_var = cn.ast.targets[0].id if isinstance(cn.ast, ast.Assign) and isinstance(cn.ast.targets[0], ast.Name) else None
     rebound = {}
@@ -415,8 +459,26 @@ def check_config_copy(ck, rule, only=None):
                 t = rebound[f][1]
                 shared = (t == src)
                 why = prov.show(t)
-                copying = t[0] == "call" and ((t[1][0] == "attr" and t[1][2] in ("copy",)) or
-                                              (t[1][0] == "global" and t[1][1] in ("dict", "LocalClasses")))
+
+                def _copying(t_):
+                    if not (t_[0] == "call"):
+                        return False
+                    if t_[1][0] == "global" and t_[1][1] in ("dict", "LocalClasses"):
+                        return True
+                    if t_[1][0] == "attr" and t_[1][2] == "copy":
+                        # the container's own copy(): dict.copy, or the package's override when that returns a new table
+                        ov = prog.funcs.get("config.LocalClasses.copy") if f == "classes" else None
+                        if ov is None:
+                            return True
+                        for (_rn, rv) in q.return_sources(ov):
+                            okr = isinstance(rv, ast.Call) and dump(rv.func) in ("type(self)", "self.__class__", "LocalClasses", "dict") and \
+                                len(rv.args) == 1 and dump(rv.args[0]) == "self"
+                            if not okr:
+                                raise AnalysisError("LocalClasses.copy() is overridden and returns `%s`: whether that is a new table is not modelled"
+                                                    % (dump(rv)[:40] if rv is not None else None))
+                        return True
+                    return False
+                copying = all(_copying(a_) for a_ in prov.value_alts(t))
                 shared = shared or not copying
             elif via_ctor:
                 # handed to the constructor: __init__ stores `serialize_handlers or {}` = the same object
@@ -764,6 +826,23 @@ def check_execute_outcome(ck, rule):
                        "after %s, execute can leave (%s) before the outcome is stored - something that may raise precedes the store: the future "
                        "is never completed (done() stays False, result() times out) and the task's own outcome is lost"
                        % (what, "exceptionally" if g.raise_exit.id in leaks else "normally"), q.loc(fex, g.nodes[b]))
+    # what the recording handler catches is recorded as the task's exception: besides the call itself nothing in that try body may
+    # raise (a log line with an `extra` naming a LogRecord attribute, a conversion of the result ...), or a successful task is
+    # reported as failed with an exception it never raised
+    for (mn, _mc) in mcalls:
+        for tnode in [t_ for t_ in ast.walk(fex.node) if isinstance(t_, ast.Try) and q.try_body_contains(t_, mn.ast)][-1:]:
+            for n2 in g.live_nodes():
+                if n2.id == mn.id or n2.ast is None or not q.try_body_contains(tnode, n2.ast):
+                    continue
+                if not any(l == "exc" for (_b, l) in g.succ[n2.id]):
+                    continue
+                cs2 = node_calls(n2)
+                if cs2 and all(isinstance(c2.func, ast.Attribute) and c2.func.attr in ("isEnabledFor", "getEffectiveLevel") for c2 in cs2) and \
+                        n2.kind in ("test", "branch"):
+                    continue        # (a logger query: same standing as the logging calls)
+                ck.bad(rule, "%s: `%s` inside the recording try" % (q.fn(fex), q.stmt_text(n2)[:50]),
+                       "`%s` can raise inside the try whose handler records the task's exception: its failure is stored (and re-raised) as "
+                       "if the task had raised it - a task that returned normally is reported as failed" % q.stmt_text(n2)[:60], q.loc(fex, n2))
     for (n, c) in sets:
         t = prov.origin(g, n, c.args[0]) if c.args else None
         okk = t is not None and t[0] == "call" and t[1] == ("param", "method")
@@ -1054,6 +1133,14 @@ def _attr_read_anywhere(prog, attr):
     return False
 
 
+def _constant_display(e):
+    if isinstance(e, ast.Constant):
+        return True
+    if isinstance(e, ast.Tuple):
+        return all(_constant_display(x) for x in e.elts)
+    return False
+
+
 def check_client_state(ck, rule, classes=None):
     """No method of a client-side class (other than __init__) keeps data of one exchange on the long-lived object: every store
     `self.F = ...`, `self.F[k] = ...`, `self.F.G = ...` and every mutating call `self.F.append(...)` targets a field of the
@@ -1088,6 +1175,9 @@ def check_client_state(ck, rule, classes=None):
                         hits.append((f.value.attr, "call .%s()" % f.attr))
                 for (attr, how) in hits:
                     n3 += 1
+                    if how == "store" and isinstance(n.ast, ast.Assign) and _constant_display(n.ast.value):
+                        ck.ok(rule, "%s: store self.%s" % (q.fn(fi), attr), "a constant (reset to an initial value): no data of a call", q.loc(fi, n))
+                        continue
                     if attr not in allowed and how == "store" and not _attr_read_anywhere(prog, attr):
                         ck.ok(rule, "%s: store self.%s" % (q.fn(fi), attr), "write-only field: nothing in the package reads it", q.loc(fi, n))
                         continue
@@ -1179,45 +1269,162 @@ def _stringish(e):
     return False
 
 
-def json_safe_expr(prog, fi, node, e, depth=0):
-    """the expression denotes None / a bool / a number / a string, or a list / dict display (string keys) of such values - whatever
-    the inputs: constants, string-typed expressions, displays of them, locals bound only to such values, and package functions all
-    of whose return values are such"""
+_STR_METHODS = ("strip", "rstrip", "lstrip", "lower", "upper", "title", "capitalize", "casefold", "replace", "format", "center", "ljust", "rjust",
+                "zfill", "expandtabs", "swapcase", "removeprefix", "removesuffix")
+_STRLIST_CALLS = ("traceback.format_tb", "traceback.format_exception", "traceback.format_exception_only", "traceback.format_stack",
+                  "traceback.format_list")
+
+
+def _jkind(prog, fi, node, e, depth=0):
+    """"str" (always a string), "strlist" (always a list of strings), "json" (None / bool / number / string or a list / dict with string
+    keys of such values), or None (not known to be any of them) - whatever the inputs"""
     from vlib.cfg import cfg_of as _cfg
     from vlib import prov as _prov, q as _q
-    if e is None or depth > 5:
-        return e is None
+    if e is None:
+        return "json"
+    if depth > 24:
+        return None
+    rec = lambda x, n_=node, f_=fi: _jkind(prog, f_, n_, x, depth + 1)
     if isinstance(e, ast.Constant):
-        return e.value is None or isinstance(e.value, (bool, int, float, str))
+        if isinstance(e.value, str):
+            return "str"
+        return "json" if e.value is None or isinstance(e.value, (bool, int, float)) else None
     if _stringish(e):
-        return True
+        return "str"
+    if isinstance(e, ast.Attribute) and e.attr in ("__name__", "__qualname__"):
+        return "str"        # (of a class or a function: the names the interpreter assigns)
+    if isinstance(e, ast.Call):
+        fname = dump(e.func)
+        if fname in _STRLIST_CALLS:
+            return "strlist"
+        if fname == "traceback.format_exc":
+            return "str"
+        if fname == "getattr" and len(e.args) == 3 and isinstance(e.args[1], ast.Constant) and e.args[1].value in ("__name__", "__qualname__") and \
+                rec(e.args[2]) == "str":
+            return "str"
+        if isinstance(e.func, ast.Attribute):
+            base = rec(e.func.value)
+            if e.func.attr in _STR_METHODS and base == "str":
+                return "str"
+            if e.func.attr == "join" and base == "str":
+                return "str"        # (or raises: the result, when there is one, has the type of the separator)
+            if e.func.attr in ("splitlines", "split", "rsplit") and base == "str":
+                return "strlist"
+        if fname in ("list", "sorted") and len(e.args) == 1 and not e.keywords and rec(e.args[0]) == "strlist":
+            return "strlist"
+        r = prog.resolve_call(fi, e)
+        hf = r if hasattr(r, "node") else None
+        if hf is None:
+            return None
+        srcs = list(_q.return_sources(hf))
+        kinds = set(_jkind(prog, hf, hn, hv, depth + 1) for (hn, hv) in srcs)
+        if not srcs or None in kinds:
+            return None
+        return kinds.pop() if len(kinds) == 1 else "json"
+    if isinstance(e, ast.Subscript):
+        base = rec(e.value)
+        if isinstance(e.slice, ast.Slice):
+            return base if base in ("str", "strlist") else None
+        return "str" if base == "strlist" else None
     if isinstance(e, ast.Dict):
-        return all(k is not None and isinstance(k, ast.Constant) and isinstance(k.value, str) for k in e.keys) and \
-            all(json_safe_expr(prog, fi, node, v, depth + 1) for v in e.values)
+        ok = all(k is not None and isinstance(k, ast.Constant) and isinstance(k.value, str) for k in e.keys) and \
+            all(rec(v) is not None for v in e.values)
+        return "json" if ok else None
     if isinstance(e, (ast.List, ast.Tuple)):
-        return all(not isinstance(x, ast.Starred) and json_safe_expr(prog, fi, node, x, depth + 1) for x in e.elts)
+        ks = [None if isinstance(x, ast.Starred) else rec(x) for x in e.elts]
+        if None in ks:
+            return None
+        return "strlist" if isinstance(e, ast.List) and all(k == "str" for k in ks) else "json"
+    if isinstance(e, ast.ListComp):
+        k = rec(e.elt)      # (an element that is a string whatever the loop variable holds)
+        return "strlist" if k == "str" else None
     if isinstance(e, ast.IfExp):
-        return json_safe_expr(prog, fi, node, e.body, depth + 1) and json_safe_expr(prog, fi, node, e.orelse, depth + 1)
+        a, b = rec(e.body), rec(e.orelse)
+        if a is None or b is None:
+            return None
+        return a if a == b else "json"
+    if isinstance(e, ast.BoolOp) and isinstance(e.op, ast.Or):
+        ks = [rec(v) for v in e.values]
+        if None in ks:
+            return None
+        return ks[0] if len(set(ks)) == 1 else "json"
     if isinstance(e, ast.Name):
         g = _cfg(fi)
         defs = _prov.rd_of(g).get(node.id, {}).get(e.id)
         if not defs:
-            return False
+            return None
+        kinds = set()
         for d in defs:
             dn = g.nodes[d]
-            if not (dn.kind == "stmt" and isinstance(dn.ast, ast.Assign) and len(dn.ast.targets) == 1 and isinstance(dn.ast.targets[0], ast.Name)):
-                return False
-            if not json_safe_expr(prog, fi, dn, dn.ast.value, depth + 1):
-                return False
-        return True
-    if isinstance(e, ast.Call):
-        r = prog.resolve_call(fi, e)
-        hf = r if hasattr(r, "node") else None
-        if hf is None:
-            return False
-        srcs = list(_q.return_sources(hf))
-        return bool(srcs) and all(hv is None or json_safe_expr(prog, hf, hn, hv, depth + 1) for (hn, hv) in srcs)
-    return False
+            if not (dn.kind == "stmt" and isinstance(dn.ast, ast.Assign) and len(dn.ast.targets) == 1):
+                return None
+            tg, val = dn.ast.targets[0], dn.ast.value
+            if isinstance(tg, ast.Subscript) and isinstance(tg.value, ast.Name) and tg.value.id == e.id:
+                continue        # (an item store: judged with the other completions below)
+            if isinstance(tg, ast.Name):
+                kinds.add(_jkind(prog, fi, dn, val, depth + 1))
+            elif isinstance(tg, ast.Tuple) and all(isinstance(x, ast.Name) for x in tg.elts) and isinstance(val, ast.Call):
+                # `a, b = helper(...)`: the matching element of every tuple the helper returns
+                idx = [x.id for x in tg.elts].index(e.id)
+                r = prog.resolve_call(fi, val)
+                hf = r if hasattr(r, "node") else None
+                if hf is None:
+                    return None
+                srcs = list(_q.return_sources(hf))
+                if not srcs:
+                    return None
+                for (hn, hv) in srcs:
+                    if not (isinstance(hv, ast.Tuple) and len(hv.elts) == len(tg.elts)):
+                        return None
+                    kinds.add(_jkind(prog, hf, hn, hv.elts[idx], depth + 1))
+            else:
+                return None
+        if None in kinds:
+            return None
+        # the container bound to the name is only completed with such values afterwards
+        for st in ast.walk(fi.node):
+            if isinstance(st, ast.Assign) and any(isinstance(t, ast.Subscript) and isinstance(t.value, ast.Name) and t.value.id == e.id for t in st.targets):
+                for t in st.targets:
+                    if isinstance(t, ast.Subscript) and isinstance(t.value, ast.Name) and t.value.id == e.id:
+                        if not (isinstance(t.slice, ast.Constant) and isinstance(t.slice.value, str)):
+                            return None
+                        if _jkind(prog, fi, _node_of(g, st) or node, st.value, depth + 1) is None:
+                            return None
+                        kinds.add("json")
+            elif isinstance(st, ast.AugAssign) and isinstance(st.target, ast.Name) and st.target.id == e.id:
+                return None
+            elif isinstance(st, ast.Call) and isinstance(st.func, ast.Attribute) and isinstance(st.func.value, ast.Name) and st.func.value.id == e.id and \
+                    st.func.attr in ("append", "extend", "update", "setdefault", "insert", "add"):
+                if st.func.attr == "append" and len(st.args) == 1 and _jkind(prog, fi, _node_of(g, st) or node, st.args[0], depth + 1) is not None:
+                    kinds.add("json")
+                    continue
+                return None
+        return kinds.pop() if len(kinds) == 1 else "json"
+    return None
+
+
+def _node_of(g, sub):
+    """the CFG node whose statement contains the AST node `sub`"""
+    best = None
+    for n in g.live_nodes():
+        a = getattr(n, "ast", None)
+        if a is None or isinstance(a, (ast.FunctionDef, ast.AsyncFunctionDef, ast.Lambda)):
+            continue
+        if a is sub:
+            return n
+        if any(x is sub for x in ast.walk(a)):
+            size = sum(1 for _ in ast.walk(a))
+            if best is None or size < best[0]:
+                best = (size, n)
+    return best[1] if best else None
+
+
+def json_safe_expr(prog, fi, node, e, depth=0):
+    """the expression denotes None / a bool / a number / a string, or a list / dict display (string keys) of such values - whatever
+    the inputs: constants, string-typed expressions (string methods, traceback formatters, class names), displays and comprehensions
+    of them, locals bound only to such values (also through `a, b = helper(...)`) and completed only with such values, and package
+    functions all of whose return values are such"""
+    return _jkind(prog, fi, node, e, depth) is not None
 
 
 def carried_by_exception(site):
